@@ -19,6 +19,9 @@ def gen(chk, tier):
     idl += [8189, 8190, 8191, 8192, 8193, 8200, 10000] + ([] if q else [16384, 20000])
     for L in idl:
         g.one("za_idlen_%s" % ("lt8192" if L < 8192 else "ge8192"), "sm2.za", id=rb(rng, L), pubx=px, puby=py)
+    # inputs carved from ONE buffer (a parsed record id || xA || yA ...): spare capacity behind the id
+    for L in (0, 1, 16, 53, 54, 100):
+        g.one("za_packed_record", "sm2.za", id=rb(rng, L), pubx=px, puby=py, packed=True)
     for _ in range(3 if q else 50):
         p2 = ec.mul(rscalar(rng))
         g.one("za_pubkeys", "sm2.za", id=rb(rng, 16), pubx=b32(p2[0]), puby=b32(p2[1]))
@@ -33,6 +36,11 @@ def gen(chk, tier):
             else:
                 kw["za"] = rb(rng, 32)
             g.one("wrappers_msglen_mod64_%d" % (L % 64), "sm2.signverify", **kw)
+            if L % 16 == 5:      # the same through the separate entry points with packed (record / packet) buffers
+                kw2 = dict(kw, packed=True)
+                if kind == "id":
+                    kw2.update(pubx=px, puby=py)
+                g.one("wrappers_packed_" + kind, "sm2.sign", **kw2)
     # too-long id through the wrappers
     big = rb(rng, 8192)
     g.one("wrappers_id_too_long", "sm2.sign", kind="id", id=big, pubx=px, puby=py, priv=b32(d), msg=[1, 2, 3],
